@@ -1,4 +1,4 @@
-import Mimium.Proofs.CstShapeTypes
+import Mimium.Proofs.CstShapeRecords
 /-!
 # Every tree the ported parser builds without an error is kept by the printer (on the covered node kinds)
 -/
@@ -67,8 +67,8 @@ theorem vc_all (t : Tag) (s : St) (hW : W E c s) (hpre : Pre E t s) (h : Em E c 
   case tupleExpr => exact em_node_app _ _ _ h
   case tupleExprLoop => exact vc_tupleExprLoop s h
   case recordExpr => exact em_node_app _ _ _ h
-  case recordUpdateLoop => trivial
-  case recordFieldLoop => trivial
+  case recordUpdateLoop => exact vc_recordUpdateLoop s h
+  case recordFieldLoop => exact vc_recordFieldLoop s h
   case blockExpr => exact em_node_app _ _ _ h
   case blockLoop => exact vc_blockLoop s h
   case ifExpr => exact em_node_app _ _ _ h
@@ -102,7 +102,7 @@ theorem nok_all (t : Tag) (s : St) (hW : W E c s) (hpre : Pre E t s) : NOK (E :=
   case macroDecl => exact nok_triv _ _ (by decide)
   case includeStmt => exact nok_triv _ _ (by decide)
   case stageDecl => exact nok_triv _ _ (by decide)
-  case macroExpansion => exact nok_triv _ _ (by decide)
+  case macroExpansion => exact nok_macroExpansion s
   case macroArgLoop => exact nok_triv _ _ (by decide)
   case bracketExpr => exact nok_triv _ _ (by decide)
   case escapeExpr => exact nok_triv _ _ (by decide)
@@ -143,7 +143,7 @@ theorem nok_all (t : Tag) (s : St) (hW : W E c s) (hpre : Pre E t s) : NOK (E :=
   case lambdaParamLoop => exact nok_triv _ _ (by decide)
   case tupleExpr => exact nok_tupleExpr s
   case tupleExprLoop => exact nok_triv _ _ (by decide)
-  case recordExpr => exact nok_triv _ _ (by decide)
+  case recordExpr => exact nok_recordExpr s
   case recordUpdateLoop => exact nok_triv _ _ (by decide)
   case recordFieldLoop => exact nok_triv _ _ (by decide)
   case blockExpr => exact nok_blockExpr s
@@ -196,6 +196,18 @@ end Mimium.Grammar
 namespace Mimium.CstPrint
 open Mimium.Gen (Kind SK)
 open Mimium.Cst (Green)
+
+mutual
+/-- with every kind covered, `keepsAllOn` is `keepsAll` -/
+theorem keepsAllOn_all (c : Ctx) : ∀ (g : Green), keepsAllOn (fun _ => true) c g = keepsAll c g
+  | .token _ _ => rfl
+  | .node k cs => by
+    simp only [keepsAllOn, keepsAll, nodeKeepsOn, nodeKeeps, keepsAllOnL_all c cs]
+    cases Gen.skOfNat k <;> simp
+theorem keepsAllOnL_all (c : Ctx) : ∀ (gs : List Green), keepsAllOnL (fun _ => true) c gs = keepsAllL c gs
+  | [] => rfl
+  | g :: gs => by simp only [keepsAllOnL, keepsAllL, keepsAllOn_all c g, keepsAllOnL_all c gs]
+end
 
 mutual
 /-- on a tree whose node kinds are all in `S`, `keepsAllOn S` is `keepsAll` -/
